@@ -20,3 +20,6 @@ def run(ctx):
     kernels2(ctx); kernels_fn(ctx)       # table-driven kernels: logic, type tests, casts, list / object / string helpers, functions with a function argument
     from ..scen_nas import nas_wiring
     nas_wiring(ctx)
+    from ..kani import kani_family
+    kani_family(ctx, 'order.zero', 'the comparison functions rest on Ord for NumberValue: the literals 0 and -0 are one number (equal, unordered, same relation to every other number)',
+                [('k_zero_spellings', 'zero-spellings', 'Ord / Eq for NumberValue on Positive(0) / Negative(0)')], ['json_value.rs'], timeout_s=600)
